@@ -15,7 +15,7 @@ import numpy as np
 
 from mc import combi
 from mc.ref import c14_ref as ref
-from mc.util import allclose, maxreldev, rng_for
+from mc.util import rng_for
 
 PROPERTY = 'C14'
 LEVEL = 'exploration'
@@ -29,9 +29,14 @@ RULE = ('Designs: conditions C in 1..3 x every composition of the repetition cou
         '(one common mean), cov_/prec_from_unbalanced (all designs), cov_/prec_from_measurements '
         '(balanced designs).  Values: ALL matrices over {0,1,2} for the small shapes (n*P bound per '
         'tier) plus fixed fills per design from VERIF_SEED (small integers with ties and zeros; '
-        'correlated Gaussians with condition offsets).  One evaluation = one library call judged '
-        '(cov against the reference / convex-combination structure, prec against prec @ cov == I, '
-        'or one measurement-vs-unbalanced agreement).  Non-trivial = the residual scatter is not '
+        'correlated Gaussians with condition offsets), each fill also multiplied by 1e-5 and 1e+4 '
+        '(residuals: both fills, both scales, every form / dof / method; datasets: every design, P, '
+        'family, form, dof None/scalar/list, method: Gaussian fill x 1e-5 in the first and last row '
+        'order, x 1e+4 in the last, integer fill x 1e-5 in the first).  One evaluation = one library call judged '
+        '(cov against the reference / convex-combination structure, all deviations relative to the '
+        'magnitude of the reference covariance; prec against prec @ cov == I; one measurement-vs-'
+        'unbalanced agreement; or, for scaled fills, one scale-equivariance comparison '
+        'cov(c x) == c^2 cov(x), prec(c x) c^2 == prec(x) against the call on the unscaled fill).  Non-trivial = the residual scatter is not '
         'all zero; distinct = distinct case descriptor.')
 ASSUMPTIONS = [
     'reference model mc/ref/c14_ref.py is correct (selftest cross-checks numpy.cov)',
@@ -43,20 +48,25 @@ ASSUMPTIONS = [
     'undefined and therefore excluded: dof <= 0; shrinkage_diag with a zero-variance channel (its '
     'correlations are undefined); shrinkage_eye with zero total variance; precision of a covariance '
     'that is singular or has condition number > 1e6; cov_from_measurements on unbalanced designs',
-    'values outside the enumerated alphabets are represented by fixed fills only; float64 inputs only',
+    'values outside the enumerated alphabets are represented by fixed fills only (at scales 1, 1e-5, 1e+4); '
+    'float64 inputs only',
+    'the estimators are scale-equivariant (covariance scales with c^2, precision with c^-2, shrinkage '
+    'intensity is scale-free): a consequence of the definitions in the property',
 ]
 TOL = 1e-9
 LAM_TOL = 1e-6
 INV_TOL = 1e-7
+EQUI_PREC_TOL = 1e-6
 COND_MAX = 1e6
-TOLERANCES = {'covariance entries (relative to max(1,|v|))': TOL, 'lambda range': LAM_TOL,
-              'prec @ cov - I': INV_TOL, 'max condition number judged for precision': COND_MAX,
+TOLERANCES = {'covariance entries (relative to max |reference covariance|, floor 1e-6 max|x|^2)': TOL, 'lambda range': LAM_TOL,
+              'prec @ cov - I': INV_TOL, 'cov(c x)/c^2 vs cov(x) (relative)': TOL,
+              'prec(c x) c^2 vs prec(x) (relative)': EQUI_PREC_TOL, 'max condition number judged for precision': COND_MAX,
               'inputs unchanged': 'bit-identical'}
 BOUNDS = {
     'quick': {'n_cond': [1, 2, 3], 'n_obs_max': 7, 'channels': [1, 2, 3, 5], 'orders': 'label sequences',
-              'fills': {'int': 1, 'gauss': 1}, 'alphabet_residuals_nP_max': 8, 'alphabet_datasets_nP_max': 4},
+              'fills': {'int': 1, 'gauss': 1}, 'fill_scales': [1, 1e-5, 1e4], 'alphabet_residuals_nP_max': 8, 'alphabet_datasets_nP_max': 4},
     'thorough': {'n_cond': [1, 2, 3], 'n_obs_max': 7, 'channels': [1, 2, 3, 5], 'orders': 'all permutations',
-                 'fills': {'int': 2, 'gauss': 2}, 'alphabet_residuals_nP_max': 10, 'alphabet_datasets_nP_max': 6},
+                 'fills': {'int': 2, 'gauss': 2}, 'fill_scales': [1, 1e-5, 1e4], 'alphabet_residuals_nP_max': 10, 'alphabet_datasets_nP_max': 6},
 }
 
 PS = [1, 2, 3, 5]
@@ -64,6 +74,7 @@ METHODS = ['full', 'diag', 'shrinkage_eye', 'shrinkage_diag']
 N_MAX = 7
 ALPHA = (0.0, 1.0, 2.0)
 ORDER_CHUNK = 15
+SCALES = [1e-5, 1e4]      # value scales of the fills besides 1 (volts / tesla-like data; large counts)
 
 
 # ------------------------------------------------------------------------------ enumeration
@@ -178,10 +189,12 @@ def run_shard(shard, ctx):
     if kind == 'res':
         n, p = shard['n'], shard['P']
         for values in value_kinds(tier):
-            for form, dofk in combos('residuals'):
-                for m in METHODS:
-                    run_case({'family': 'residuals', 'reps': [n], 'P': p, 'values': values,
-                              'method': m, 'dof': dofk, 'form': form}, ctx)
+            for scale in [None] + SCALES:
+                v = values if scale is None else dict(values, scale=scale)
+                for form, dofk in combos('residuals'):
+                    for m in METHODS:
+                        run_case({'family': 'residuals', 'reps': [n], 'P': p, 'values': v,
+                                  'method': m, 'dof': dofk, 'form': form}, ctx)
     elif kind == 'res_alpha':
         n, p = shard['n'], shard['P']
         for idx in range(shard['range'][0], shard['range'][1]):
@@ -206,6 +219,29 @@ def run_shard(shard, ctx):
                                 run_case({'family': family, 'reps': reps, 'perm': perm, 'P': p,
                                           'naming': naming, 'values': values,
                                           'method': m, 'dof': dofk, 'form': form}, ctx)
+        if shard['orders'][0] == 0:
+            # value scales: the generic (Gaussian) fills at 1e-5 in the first and the last row order
+            # of the label-sequence enumeration (by-condition and its mirror image) and at 1e+4 in
+            # the last, the integer fills at 1e-5 in the first; int / string labels alternate
+            allq = orders(reps, 'quick')
+            first, last = allq[0], allq[-1]
+            plan = []
+            for values in value_kinds(tier):
+                if values['kind'] == 'gauss':
+                    plan += [(values, 1e-5, first, 'int'), (values, 1e4, last, 'str')]
+                    if last != first:
+                        plan.append((values, 1e-5, last, 'str'))
+                else:
+                    plan.append((values, 1e-5, first, 'str'))
+            for values, scale, perm, naming in plan:
+                for family in (('unbalanced', 'measurements') if balanced else ('unbalanced',)):
+                    for form, dofk in combos(family):
+                        if dofk == 'array':
+                            continue
+                        for m in METHODS:
+                            run_case({'family': family, 'reps': reps, 'perm': perm, 'P': p,
+                                      'naming': naming, 'values': dict(values, scale=scale),
+                                      'method': m, 'dof': dofk, 'form': form}, ctx)
     elif kind == 'ds_alpha':
         reps, p = shard['reps'], shard['P']
         balanced = len(set(reps)) == 1
@@ -235,7 +271,8 @@ def _names(naming, k):
 
 def _matrix(values, reps, p, seed, role):
     """n x P float array in canonical (by-condition) row order (fresh copy)"""
-    return _matrix_cached(values['kind'], values.get('idx', values.get('fill')), tuple(reps), p, seed, role).copy()
+    x = _matrix_cached(values['kind'], values.get('idx', values.get('fill')), tuple(reps), p, seed, role)
+    return x * float(values.get('scale', 1.0))
 
 
 @functools.lru_cache(maxsize=4096)
@@ -346,8 +383,25 @@ def _sig(func, case, kind, specific=None, c1=False):
     return '%s|%s|%s' % (func, cfg, kind)
 
 
-def _scale(*mats):
-    return max([1.0] + [ref.max_abs(m) for m in mats])
+def _unit(s, x):
+    """magnitude against which deviations of a covariance estimate are measured: the largest
+    entry of the reference covariance (floor: 1e-6 x the squared data magnitude, so that
+    rounding residue of constant channels is not compared relatively).  Scale-equivariant."""
+    return max(ref.max_abs(s), 1e-6 * float(np.max(np.abs(x))) ** 2, 1e-300)
+
+
+def _mdev(a, b, unit):
+    """largest entry-wise deviation relative to unit (inf for shape / NaN mismatch)"""
+    a, b = np.asarray(a, float), np.asarray(b, float)
+    if a.shape != b.shape or not (np.all(np.isfinite(a)) and np.all(np.isfinite(b))):
+        return float('inf')
+    if a.size == 0:
+        return 0.0
+    return float(np.max(np.abs(a - b))) / unit
+
+
+def _mclose(a, b, tol, unit):
+    return _mdev(a, b, unit) <= tol
 
 
 def _judge_cov(ctx, func, case, out, x, labels, dof, c1):
@@ -359,7 +413,7 @@ def _judge_cov(ctx, func, case, out, x, labels, dof, c1):
         ctx.fail(_sig(func, case, 'shape'), case,
                  'estimate has shape %r, expected one %dx%d matrix per input element' % (np.shape(out), p, p))
         return 'fail', None
-    zero_thr = 1e-20 * max(1.0, float(np.max(np.abs(x))) ** 2)
+    zero_thr = 1e-20 * float(np.max(np.abs(x))) ** 2
     variances = [s[j][j] for j in range(p)]
     if method == 'shrinkage_diag' and min(variances) <= zero_thr:
         ctx.exclude('shrinkage_diag undefined: zero-variance channel')
@@ -369,19 +423,19 @@ def _judge_cov(ctx, func, case, out, x, labels, dof, c1):
         return 'excluded', None
     o = out.tolist()
     finite = bool(np.all(np.isfinite(out)))
-    sc = _scale(s)
+    sc = _unit(s, x)
     if method in ('full', 'diag'):
         want = s if method == 'full' else ref.diag_cov(s)
         if not finite:
             ctx.fail(_sig(func, case, 'nonfinite', c1=c1), case,
                      'non-finite estimate %r; reference (dof %s) %r; rows %r labels %r' % (o, dof_used, want, x.tolist(), labels))
             return 'fail', None
-        ctx.dev('cov/' + method, maxreldev(out, want))
-        if allclose(out, want, TOL):
-            ctx.outcome((method, p, round(sum(variances), 6)))
+        ctx.dev('cov/' + method, _mdev(out, want, sc))
+        if _mclose(out, want, TOL, sc):
+            ctx.outcome((method, p, '%.6g' % sum(variances)))
             return 'ok', out
         tr_o, tr_w = sum(o[j][j] for j in range(p)), sum(variances)
-        if tr_w > zero_thr and tr_o > 0 and allclose(np.array(o) * (tr_w / tr_o), want, TOL):
+        if tr_w > zero_thr and tr_o > 0 and _mclose(np.array(o) * (tr_w / tr_o), want, TOL, sc):
             ctx.fail(_sig(func, case, 'scaled-by-constant'), case,
                      'estimate = %.6g x reference (reference dof %s => library used dof %.6g); rows %r labels %r'
                      % (tr_o / tr_w, dof_used, dof_used * tr_w / tr_o, x.tolist(), labels))
@@ -407,10 +461,10 @@ def _judge_cov(ctx, func, case, out, x, labels, dof, c1):
         status = 'fail'
     if s_eq_t:
         ctx.count('shrinkage: S == target')
-        ctx.dev('cov/' + method, maxreldev(out, s))
-        if not allclose(out, s, 10 * TOL):
+        ctx.dev('cov/' + method, _mdev(out, s, sc))
+        if not _mclose(out, s, 10 * TOL, sc):
             tr_o, tr_s = sum(o[j][j] for j in range(p)), sum(variances)
-            if tr_s > zero_thr and tr_o > 0 and allclose(np.array(o) * (tr_s / tr_o), s, 10 * TOL):
+            if tr_s > zero_thr and tr_o > 0 and _mclose(np.array(o) * (tr_s / tr_o), s, 10 * TOL, sc):
                 ctx.fail(_sig(func, case, 'scaled-by-constant'), case,
                          'estimate = %.6g x S (reference dof %s => library used dof %.6g); rows %r labels %r'
                          % (tr_o / tr_s, dof_used, dof_used * tr_s / tr_o, x.tolist(), labels))
@@ -457,7 +511,7 @@ def _judge_cov(ctx, func, case, out, x, labels, dof, c1):
             ctx.fail(_sig(func, case, 'not-pd-with-active-shrinkage', specific=''), case,
                      'lambda %.6g, smallest eigenvalue %.6g (< lambda * %.6g); got %r' % (lam, w[0], tmin, o))
             status = 'fail'
-    ctx.outcome((method, p, None if lam is None else round(lam, 3), round(sum(variances), 6)))
+    ctx.outcome((method, p, None if lam is None else round(lam, 3), '%.6g' % sum(variances)))
     return (status, out if status == 'ok' else None)
 
 
@@ -478,18 +532,36 @@ def _as_elements(ctx, func, case, out, n_el):
     return list(out)
 
 
-def run_case(case, ctx):
-    from rsatoolbox.data import noise
-    family, method, form, dofk = case['family'], case['method'], case['form'], case['dof']
+def _elements(case, values, seed):
+    """[(X, labels), ...] for the case (second element = partner of list forms)"""
+    family, form = case['family'], case['form']
     reps, p = list(case['reps']), case['P']
-    perm = case.get('perm')
     naming = case.get('naming', 'int')
-    seed = ctx.seed
-    els = [_element(family, reps, perm, p, naming, case['values'], seed, 0)]
+    els = [_element(family, reps, case.get('perm'), p, naming, values, seed, 0)]
     if form != 'single':
         preps = _partner_design(family, reps, form)
         pperm = None if family == 'residuals' else list(range(sum(preps)))[::-1]
-        els.append(_element(family, preps, pperm, p, naming, case['values'], seed, 1))
+        els.append(_element(family, preps, pperm, p, naming, values, seed, 1))
+    return els
+
+
+def _lib_inputs(family, form, els):
+    """(positional args for the library call, objects to fingerprint, per-element objects)"""
+    if family == 'residuals':
+        objs = [x.copy() for x, _ in els]
+        arg = objs[0] if form == 'single' else (objs if form == 'list' else np.stack(objs))
+        return (arg,), ([arg] if form == 'stack3d' else objs), objs
+    objs = [_dataset(x, lab) for x, lab in els]
+    return ((objs[0] if form == 'single' else objs), 'cond'), objs, objs
+
+
+def run_case(case, ctx):
+    from rsatoolbox.data import noise
+    family, method, form, dofk = case['family'], case['method'], case['form'], case['dof']
+    p = case['P']
+    reps = list(case['reps'])
+    seed = ctx.seed
+    els = _elements(case, case['values'], seed)
     n_obs = [len(lab) for _, lab in els]
     # dof argument and the dof each element must be estimated with
     if dofk == 'none':
@@ -507,17 +579,7 @@ def run_case(case, ctx):
     # configuration class of its own: measurement tensor of a single condition with the natural dof
     c1 = family == 'measurements' and form == 'single' and dofk == 'none' and len(reps) == 1
     nontrivial = any(_ref_scatter(x.tobytes(), x.shape[0], x.shape[1], tuple(lab))[1] > 0 for x, lab in els)
-    # library inputs
-    if family == 'residuals':
-        objs = [x.copy() for x, _ in els]
-        arg = objs[0] if form == 'single' else (objs if form == 'list' else np.stack(objs))
-        held = [arg] if form == 'stack3d' else objs
-        args = (arg,)
-    else:
-        objs = [_dataset(x, lab) for x, lab in els]
-        arg = objs[0] if form == 'single' else objs
-        held = objs
-        args = (arg, 'cond')
+    args, held, objs = _lib_inputs(family, form, els)
     cov_f = getattr(noise, 'cov_from_' + family)
     prec_f = getattr(noise, 'prec_from_' + family)
     gp = '%s,dof=%s,method=%s%s' % (form, _dofclass(dofk), method, ',n_cond=1' if c1 else '')
@@ -554,47 +616,104 @@ def run_case(case, ctx):
             if a.shape != b.shape or not (np.all(np.isfinite(a)) and np.all(np.isfinite(b))):
                 ctx.exclude('agreement not judged: an estimate is non-finite / mis-shaped (reported by its own oracle)')
             else:
-                ctx.dev('agree', maxreldev(a, b))
-                if not allclose(a, b, TOL):
+                unit = _unit(_ref_full(els[0][0], els[0][1], want_dof[0])[0], els[0][0])
+                ctx.dev('agree', _mdev(a, b, unit))
+                if not _mclose(a, b, TOL, unit):
                     ctx.fail('cov_from_measurements~cov_from_unbalanced|balanced,dof=%s|disagree' % _dofclass(dofk),
                              acase, 'measurements %r vs unbalanced %r; rows %r labels %r'
                              % (a.tolist(), b.tolist(), els[0][0].tolist(), els[0][1]))
 
     # ---- precision
+    pparts = _precision(ctx, case, prec_f, args, held, dofarg, results, states, gp, c1, nontrivial, p)
+
+    # ---- scale equivariance: cov(c x) == c^2 cov(x), prec(c x) c^2 == prec(x)
+    c = float(case['values'].get('scale', 1.0))
+    if c != 1.0:
+        _equivariance(ctx, case, noise, dofarg, parts, states, pparts, gp, nontrivial, c)
+
+
+def _precision(ctx, case, prec_f, args, held, dofarg, results, states, gp, c1, nontrivial, p):
+    """call and judge prec_from_*; returns the judged precision matrices (or None)"""
     if 'fail' in states:
         ctx.exclude('precision not judged: covariance call already reported')
-        return
+        return None
     if 'excluded' in states:
         ctx.exclude('precision not judged: shrinkage covariance undefined')
-        return
+        return None
     for _, cov in results:
         w = ref.eigenvalues(cov.tolist())
         if not (w[0] > 0 and w[-1] / w[0] <= COND_MAX):
             ctx.exclude('precision undefined: covariance singular or condition number > 1e6')
-            return
+            return None
     pcase = dict(case, func='prec')
     ctx.case(pcase, nontrivial=nontrivial)
     before = _fp_inputs(held, dofarg)
+    pout = None
     with ctx.guard('%s|%s' % (prec_f.__name__, gp), pcase) as g3:
         with np.errstate(all='ignore'):
-            pout = prec_f(*args, dof=dofarg, method=method)
+            pout = prec_f(*args, dof=dofarg, method=case['method'])
     if not g3.ok:
-        return
+        return None
     if _fp_inputs(held, dofarg) != before:
         ctx.fail(_sig(prec_f.__name__, case, 'input-modified'), pcase, 'inputs differ bitwise after the call')
-    pparts = _as_elements(ctx, prec_f.__name__, pcase, pout, len(els))
+    pparts = _as_elements(ctx, prec_f.__name__, pcase, pout, len(results))
     if pparts is None:
-        return
+        return None
+    good = True
     for pr, (_, cov) in zip(pparts, results):
         if pr.shape != (p, p):
             ctx.fail(_sig(prec_f.__name__, case, 'shape'), pcase, 'precision of shape %r' % (pr.shape,))
+            good = False
             continue
         if not np.all(np.isfinite(pr)):
             ctx.fail(_sig(prec_f.__name__, case, 'nonfinite', c1=c1), pcase,
                      'precision %r for covariance %r' % (pr.tolist(), cov.tolist()))
+            good = False
             continue
         d = max(ref.identity_defect(pr.tolist(), cov.tolist()), ref.identity_defect(cov.tolist(), pr.tolist()))
         ctx.dev('prec@cov-I', d)
         if d > INV_TOL:
             ctx.fail(_sig(prec_f.__name__, case, 'not-inverse', specific=''), pcase,
                      'max |prec @ cov - I| = %.3g; prec %r; cov %r' % (d, pr.tolist(), cov.tolist()))
+    # well-formed precisions go on to the (independent) scale-equivariance oracle
+    return pparts if good else None
+
+
+def _equivariance(ctx, case, noise, dofarg, parts, states, pparts, gp, nontrivial, c):
+    """the same call on the unscaled data (scale 1) must give cov / c^2 and prec * c^2"""
+    family, form, method = case['family'], case['form'], case['method']
+    values1 = dict(case['values'])
+    values1.pop('scale', None)
+    els1 = _elements(case, values1, ctx.seed)
+    args1, _, _ = _lib_inputs(family, form, els1)
+    for kind, scaled, factor, tol in (('cov', parts, 1.0 / (c * c), TOL), ('prec', pparts, c * c, EQUI_PREC_TOL)):
+        if scaled is None:
+            continue
+        f = getattr(noise, '%s_from_%s' % (kind, family))
+        ecase = dict(case, func='equivariance-' + kind)
+        ctx.case(ecase, nontrivial=nontrivial)
+        base = None
+        with ctx.guard('%s|%s,scale=1' % (f.__name__, gp), ecase) as g:
+            with np.errstate(all='ignore'):
+                base = f(*args1, dof=dofarg, method=method)
+        if not g.ok:
+            continue
+        base = [base] if form == 'single' else base
+        if not isinstance(base, (list, tuple, np.ndarray)) or len(base) != len(scaled):
+            ctx.exclude('equivariance not judged: unscaled result mis-shaped (reported by its own case)')
+            continue
+        for i, (a, b) in enumerate(zip(scaled, base)):
+            if kind == 'cov' and states[i] != 'ok':
+                continue
+            b = np.asarray(b, float)
+            if b.shape != np.shape(a) or not np.all(np.isfinite(b)):
+                ctx.exclude('equivariance not judged: unscaled result mis-shaped / non-finite (reported by its own case)')
+                continue
+            unit = max(float(np.max(np.abs(b))), 1e-300)
+            dev = _mdev(np.asarray(a, float) * factor, b, unit)
+            ctx.dev('equivariance/' + kind, dev)
+            if dev > tol:
+                ctx.fail(_sig(f.__name__, case, 'not-scale-equivariant', specific=''), ecase,
+                         '%s(c x) %s differs from %s(x) by %.3g (relative), c = %g: scaled-back %r vs %r; rows (unscaled) %r labels %r'
+                         % (kind, '/ c^2' if kind == 'cov' else '* c^2', kind, dev, c,
+                            (np.asarray(a, float) * factor).tolist(), b.tolist(), els1[i][0].tolist(), els1[i][1]))
